@@ -100,9 +100,16 @@ def sym_usages(o):
     raise ValueError(o)
 
 
+SNAPSHOT = None  # optional callable (phase, idx, environment, settings) -> None, called by main steps of stubs
+
+
 class Base:
     def __init__(self, rec: Recorder, phase: str, idx: int, script: dict):
         self.r, self.phase, self.idx, self.script = rec, phase, idx, script
+
+    def _snap(self, environment, settings):
+        if SNAPSHOT is not None:
+            SNAPSHOT(self.phase, self.idx, environment, settings)
 
     def _o(self, step, **kw):
         self.r.rec(step, self.phase, self.idx, **kw)
@@ -148,6 +155,7 @@ class Setup(Base, SetupPhaseInstruction):
         return outcome_svh(self._o('post'))
 
     def main(self, environment, settings, os_services, settings_builder):
+        self._snap(environment, settings)
         o = self._o('main')
         if self.stdin_outcome is not None:
             settings_builder.stdin = StdinAdv(self.r, self.stdin_outcome)
@@ -165,6 +173,7 @@ class BA(Base, BeforeAssertPhaseInstruction):
         return outcome_svh(self._o('post'))
 
     def main(self, e, s, o):
+        self._snap(e, s)
         return outcome_sh(self._o('main'))
 
 
@@ -179,6 +188,7 @@ class Assert(Base, AssertPhaseInstruction):
         return outcome_svh(self._o('post'))
 
     def main(self, e, s, o):
+        self._snap(e, s)
         return outcome_pfh(self._o('main'))
 
 
@@ -190,6 +200,7 @@ class Cleanup(Base, CleanupPhaseInstruction):
         return outcome_svh(self._o('pre'))
 
     def main(self, e, s, o, previous_phase):
+        self._snap(e, s)
         return outcome_sh(self._o('main', prev=previous_phase.name))
 
 
